@@ -38,6 +38,15 @@ class Chooser:
         self.log = []
         self.ndraws = 0
 
+    def side(self, tag):
+        """An independent sub-stream of the same run (same seed, other tag).
+        A generator feature added late draws from one, so that every decision
+        of the main stream - and with it every run the feature does not touch
+        - stays what it was."""
+        c = Chooser(derive(self.seed, 'side', tag))
+        c.log = self.log
+        return c
+
     def _rec(self, tag, v):
         self.ndraws += 1
         if len(self.log) < 4000:
